@@ -10,7 +10,7 @@ from ..gen import meshes as gm
 CO = st.sampled_from([1.0, 0.5, 2.0, -1.0, 0.25, 1.5])
 SCALAR = {'line': ['ElementLineP1', 'ElementLineP2'], 'tri': ['ElementTriP1', 'ElementTriP2', 'ElementTriMini'],
           'quad': ['ElementQuad1', 'ElementQuad2'], 'tet': ['ElementTetP1'], 'hex': ['ElementHex1']}
-FAMILIES = ['quasilinear', 'exp', 'minsurf', 'logistic', 'sinrat', 'linear', 'energy', 'vector', 'composite', 'divide', 'basis_product']
+FAMILIES = ['quasilinear', 'exp', 'minsurf', 'logistic', 'sinrat', 'linear', 'energy', 'vector', 'composite', 'divide', 'basis_product', 'complex']
 
 
 @st.composite
@@ -42,6 +42,21 @@ def forms(fam, a, b, d):
             return ((1.0 + a * u.value ** 2) * H.dot(du.grad, v.grad) + 2 * a * u.value * du.value * H.dot(u.grad, v.grad)
                     + 3 * b * u.value ** 2 * du.value * v.value)
         return jx, res, lin, {}
+    if fam == 'complex':
+        # complex-valued problem (Helmholtz-type with a cubic term): NonlinearForm(dtype=complex128)
+        za, zb = a * (1.0 + 0.5j), b * (0.25 - 1.0j)
+
+        def jx(u, v, w):
+            return JH.dot(u.grad, v.grad) - za * u.value * v.value + zb * u.value ** 3 * v.value - (1.0 + 2.0j) * w.x[0] * v.value
+
+        def res(v, w):
+            u = w['prev']
+            return H.dot(u.grad, v.grad) - za * u.value * v.value + zb * u.value ** 3 * v.value - (1.0 + 2.0j) * w.x[0] * v.value
+
+        def lin(du, v, w):
+            u = w['prev']
+            return H.dot(du.grad, v.grad) - za * du.value * v.value + 3 * zb * u.value ** 2 * du.value * v.value
+        return jx, res, lin, dict(dtype=np.complex128)
     if fam == 'exp':
         def jx(u, v, w):
             return a * jnp.exp(b * u.value / 4) * v.value + JH.dot(u.grad, v.grad)
@@ -192,8 +207,9 @@ def body_form(c, ctx):
     J, r = NonlinearForm(jx, **params).assemble(basis, x=None if x0 is None else x0.copy())
     xx = basis.zeros() if x0 is None else x0
     prev = basis.interpolate(xx)
-    F = LinearForm(res).assemble(basis, prev=prev)
-    K = BilinearForm(lin).assemble(basis, prev=prev)
+    fkw = dict(dtype=params['dtype']) if 'dtype' in params else {}
+    F = LinearForm(res, **fkw).assemble(basis, prev=prev)
+    K = BilinearForm(lin, **fkw).assemble(basis, prev=prev)
     sF = 1.0 + np.abs(F).max()
     if r.shape != F.shape or not np.allclose(r, -F, rtol=0, atol=1e-9 * sF):
         ctx.fail('residual', f'{fam}: returned vector differs from minus the residual assembled with NumPy helpers by '
@@ -209,13 +225,13 @@ def body_form(c, ctx):
     for k in cols:
         ek = np.zeros(basis.N)
         ek[k] = h
-        Fp = LinearForm(res).assemble(basis, prev=basis.interpolate(xx + ek))
-        Fm = LinearForm(res).assemble(basis, prev=basis.interpolate(xx - ek))
+        Fp = LinearForm(res, **fkw).assemble(basis, prev=basis.interpolate(xx + ek))
+        Fm = LinearForm(res, **fkw).assemble(basis, prev=basis.interpolate(xx - ek))
         fd = (Fp - Fm) / (2 * h)
         # truncation error of the difference quotient itself, estimated from a second step size
         ek2 = ek / 2
-        fd2 = (LinearForm(res).assemble(basis, prev=basis.interpolate(xx + ek2))
-               - LinearForm(res).assemble(basis, prev=basis.interpolate(xx - ek2))) / h
+        fd2 = (LinearForm(res, **fkw).assemble(basis, prev=basis.interpolate(xx + ek2))
+               - LinearForm(res, **fkw).assemble(basis, prev=basis.interpolate(xx - ek2))) / h
         trunc = np.abs(fd - fd2).max()
         if not np.allclose(Jd[:, k], fd2, rtol=0, atol=2e-6 * sK + 4 * trunc):
             ctx.fail('jacobian_fd', f'{fam}: column {k} differs from central differences of the residual by {np.abs(Jd[:, k] - fd).max():.3e}', **sig)
